@@ -6,6 +6,7 @@ Used in-process (under harness.lib.ostrace.InProcessTracer) and as a subprocess 
 Steps (JSON lists):
   ["create"]                   create_table(root, schema)
   ["reopen"]                   load_table(root)
+  ["sleep", s]                 (self-test of the harness's time limit; never generated)
   ["append", n]                Table.append_records(n rows)              (one data file)
   ["multi", [n1, n2, ...]]     one transaction, one append_data per n    (several data files)
   ["delete", k]                delete_files([k-th live data file])       (manifest rewritten or dropped)
@@ -14,6 +15,8 @@ Steps (JSON lists):
   ["append_expire", n]         append_data + expire_snapshots in one transaction
   ["delete_snapshot", k]       SnapshotManager.delete_snapshot(k-th snapshot)
   ["abort", [n1, ...]]         one transaction, one append_data per n, then Transaction.rollback()
+A step that raises is recorded as failed (ok=false) after the transaction was rolled back the way the
+context manager does, and the scenario continues with the next step.
 Every step is bracketed by marks "<i>:begin" / "<i>:end" in the trace; the result file lists, per
 step, the data files written in API order (from the transaction's own bookkeeping).
 """
@@ -71,12 +74,32 @@ def install_mutation(mutation: Optional[str]) -> Callable[[], None]:
     return undo
 
 
+def _in_tx(table: Any, res: Dict[str, Any], body: Callable[[Any], None]) -> None:
+    """Run `body(tx)` the way `with table.new_transaction() as tx:` does: an exception rolls the
+    transaction back (Transaction.__exit__) and propagates."""
+    tx = table.new_transaction().begin()
+    try:
+        body(tx)
+    except BaseException:
+        res["data_files"] = list(tx._written_files)
+        res["appends_done"] = len(tx._written_files)
+        if tx.is_active():
+            res["rolled_back"] = bool(tx.rollback())
+        raise
+
+
 def run_steps(root: str, steps: List[Any], mark: Callable[[str], None], mutation: Optional[str] = None) -> List[Dict[str, Any]]:
     from datashard import create_table, load_table
     undo = install_mutation(mutation)
     results: List[Dict[str, Any]] = []
     table = None
-    salt = 0
+    salt = [0]
+
+    def append(tx: Any, res: Dict[str, Any], n: int) -> None:
+        salt[0] += 1
+        tx.append_data(records=_rows(n, salt[0]), schema=None)
+        res["data_files"] = list(tx._written_files)
+
     try:
         for i, st in enumerate(steps):
             kind = st[0]
@@ -87,56 +110,53 @@ def run_steps(root: str, steps: List[Any], mark: Callable[[str], None], mutation
                     table = create_table(root, _schema())
                 elif kind == "reopen":
                     table = load_table(root)
+                elif kind == "sleep":            # harness self-test of the time limit only
+                    time.sleep(st[1])
                 else:
                     if table is None:
                         table = load_table(root)
                     if kind == "append":
-                        salt += 1
-                        tx = table.new_transaction().begin()
-                        tx.append_data(records=_rows(st[1], salt), schema=None)
-                        res["data_files"] = list(tx._written_files)
-                        tx.commit()
+                        def body(tx: Any) -> None:
+                            append(tx, res, st[1])
+                            tx.commit()
+                        _in_tx(table, res, body)
                     elif kind == "multi":
-                        tx = table.new_transaction().begin()
-                        for n in st[1]:
-                            salt += 1
-                            tx.append_data(records=_rows(n, salt), schema=None)
-                        res["data_files"] = list(tx._written_files)
-                        tx.commit()
+                        def body(tx: Any) -> None:
+                            for n in st[1]:
+                                append(tx, res, n)
+                            tx.commit()
+                        _in_tx(table, res, body)
                     elif kind == "abort":
-                        tx = table.new_transaction().begin()
-                        for n in st[1]:
-                            salt += 1
-                            tx.append_data(records=_rows(n, salt), schema=None)
-                        res["data_files"] = list(tx._written_files)
-                        res["ok"] = bool(tx.rollback())
-                        res["aborted"] = True
+                        def body(tx: Any) -> None:
+                            for n in st[1]:
+                                append(tx, res, n)
+                            res["ok"] = bool(tx.rollback())
+                            res["aborted"] = True
+                        _in_tx(table, res, body)
                     elif kind in ("delete", "delete_append"):
                         live = [f.file_path for f in table._get_all_data_files()]   # manifest order: independent of the random names
-                        tx = table.new_transaction().begin()
-                        if live:
-                            tx.delete_files([live[st[1] % len(live)]])
-                            res["deleted"] = live[st[1] % len(live)]
-                        if kind == "delete_append":
-                            salt += 1
-                            tx.append_data(records=_rows(st[2], salt), schema=None)
-                            res["data_files"] = list(tx._written_files)
                         if live or kind == "delete_append":
-                            tx.commit()
+                            def body(tx: Any) -> None:
+                                if live:
+                                    tx.delete_files([live[st[1] % len(live)]])
+                                    res["deleted"] = live[st[1] % len(live)]
+                                if kind == "delete_append":
+                                    append(tx, res, st[2])
+                                tx.commit()
+                            _in_tx(table, res, body)
                         else:
-                            tx.rollback()
                             res["ok"] = False
                     elif kind == "expire":
-                        tx = table.new_transaction().begin()
-                        tx.expire_snapshots(int(time.time() * 1000) + 1)
-                        tx.commit()
+                        def body(tx: Any) -> None:
+                            tx.expire_snapshots(int(time.time() * 1000) + 1)
+                            tx.commit()
+                        _in_tx(table, res, body)
                     elif kind == "append_expire":
-                        salt += 1
-                        tx = table.new_transaction().begin()
-                        tx.append_data(records=_rows(st[1], salt), schema=None)
-                        res["data_files"] = list(tx._written_files)
-                        tx.expire_snapshots(int(time.time() * 1000) + 1)
-                        tx.commit()
+                        def body(tx: Any) -> None:
+                            append(tx, res, st[1])
+                            tx.expire_snapshots(int(time.time() * 1000) + 1)
+                            tx.commit()
+                        _in_tx(table, res, body)
                     elif kind == "delete_snapshot":
                         snaps = table.snapshot_manager.get_all_snapshots()
                         if snaps:
@@ -147,8 +167,12 @@ def run_steps(root: str, steps: List[Any], mark: Callable[[str], None], mutation
                     else:
                         raise ValueError(f"unknown step {st!r}")
             except Exception as e:  # the step failed: recorded, the trace up to here still counts
+                if isinstance(e, MemoryError):
+                    raise
                 res["ok"] = False
                 res["error"] = f"{type(e).__name__}: {e}"[:300]
+                if kind == "create":
+                    table = None
             mark(f"{i}:end")
             results.append(res)
     finally:
